@@ -781,6 +781,59 @@ class Program:
                     dq.append(y)
         return None
 
+    # ---- interprocedural dominance / must-follow ------------------------------------
+    def call_sites_into(self, fid):
+        """[(caller fn, call)] for every call site that may enter function fid"""
+        idx = getattr(self, "_sites_into", None)
+        if idx is None:
+            idx = collections.defaultdict(list)
+            for g in self.fns.values():
+                for c in g.calls():
+                    for t in self.targets(c):
+                        idx[t].append((g, c))
+            self._sites_into = idx
+        return idx.get(fid, [])
+
+    def dominated_interproc(self, f, bb, T, depth=3, _seen=None):
+        """block bb of f is preceded, on every path from the entry of the program part that can reach
+        it, by a call into T: either a call into T dominates bb inside f, or every call site that can
+        enter f is itself so dominated (helpers extracted from a function keep the property)"""
+        for c in f.calls():
+            if c.bb != bb and f.dominates(c.bb, bb) and (c.callee in T or (set(self.targets(c)) & T)):
+                # the call must have succeeded when bb runs: bb lies on its success continuation
+                if c.term.get("to") is None or bb in f.success_reach(c.term["to"]) or bb == c.term["to"]:
+                    return True
+        if depth <= 0:
+            return False
+        _seen = _seen or set()
+        if f.id in _seen:
+            return False
+        sites = self.call_sites_into(f.id)
+        if not sites:
+            return False
+        return all(self.dominated_interproc(g, c.bb, T, depth - 1, _seen | {f.id}) for g, c in sites)
+
+    def followed_interproc(self, f, start, T, depth=3, _seen=None):
+        """every success path from block `start` of f to the end of the enclosing operation passes a call
+        into T*: inside f, or — for paths that return from f first — after every call site of f"""
+        Tstar = self.must_reach_set(T) if not isinstance(T, frozenset) else T
+        if self.all_success_paths_call(f, Tstar, start):
+            return True
+        if depth <= 0:
+            return False
+        _seen = _seen or set()
+        if f.id in _seen:
+            return False
+        sites = [(g, c) for g, c in self.call_sites_into(f.id)]
+        if not sites:
+            return False
+        ok = True
+        for g, c in sites:
+            if c.term.get("to") is None:
+                continue
+            ok = ok and self.followed_interproc(g, c.term["to"], frozenset(Tstar), depth - 1, _seen | {f.id})
+        return ok
+
     # ---- must-pass-through (DESIGN 4.1) -----------------------------------------
     def must_reach_set(self, targets, scope=None, extra_ok=()):
         """Least set T* ⊇ targets such that a function is in T* when every success
